@@ -246,3 +246,9 @@ impl Approx { pub uninterp spec fn val(&self) -> f64;
 impl Integer { #[verifier::external_body] pub fn to_f64(&self) -> (r: Approx) ensures r.val() == f_of_int(self.v()) { unimplemented!() } }
 impl Rational { #[verifier::external_body] pub fn to_f64(&self) -> (r: Approx) ensures r.val() == f_of_q(*self) { unimplemented!() } }
 pub assume_specification [<f64>::abs] (a: f64) -> (r: f64) ensures r == f_abs(a);
+
+pub uninterp spec fn q_of_float(f: f64) -> Rational;                  // the exact value of a finite double
+// `Rational::try_from(f64).ok()` (dashu): exact for finite doubles, None for NaN and the infinities (ASSUMED)
+#[verifier::external_body]
+pub fn rational_try_from_f64(f: f64) -> (r: Option<Rational>)
+    ensures f_finite(f) ==> r == Some(q_of_float(f)), !f_finite(f) ==> r is None { unimplemented!() }
